@@ -27,9 +27,14 @@ ASSUMPTIONS = ['A-IO: the whole file reaches from_raw_buffer in one chunk (bnp.o
                'replaced values are handed to Coq as their canonical text (str(int), the given strings); number formatting is C03/C18',
                'index expressions are resolved by NumPy on np.arange(n) in the harness: that is the meaning of "NumPy-style indexing"',
                'eager (parsed) tables: text -> value -> text is the identity except for int columns (re-spelled canonically)']
-PARTIAL = ['C04_write_pure_delimited_partial: byte-exact pass-through of selections is proved for LF files; CRLF delimited files are '
-           'refuted for the code at HEAD (C04_crlf_refuted) and proved for the repaired extractor',
-           'concatenation of operands that already carry replaced fields is outside the model (C05 covers it)']
+PARTIAL = ['C04_delimited_end_to_end (file bytes -> written bytes satisfy the byte-level Spec, all programs without replacement) is proved '
+           'for LF tab-delimited files (BED/BED6/narrowPeak/VCF); for CRLF delimited files it is refuted for the code at HEAD '
+           '(C04_crlf_selection_pinned_refuted). For SAM/FASTQ/FASTA/BAM the hypotheses of the general theorems (Inv, view = gview) are '
+           'checked by computation on every generated file (Corr.C04.hyp_ok) instead of being proved for all files',
+           'programs with replaced fields: proved at the level of the abstraction (C04_program_write: every non-replaced field is read off '
+           'the row\'s own original bytes); the last step to the byte-level Spec is carried by the correspondence only',
+           'concatenation of operands that already carry replaced fields is outside the model (C05 covers it); eager tables (GTF; FASTQ/FASTA '
+           'after np.concatenate) are modelled and compared but not covered by theorems']
 PER_FILE = 24
 
 # ----------------------------------------------------------------------------- formats
@@ -284,7 +289,7 @@ def generate(tier, seed):
     cases = []
     quick = tier == 'quick'
     # (1) exhaustive menu programs of length 1 and 2 (+ touch between) on 3-record files
-    for fmt, eol in (('bed6', 'lf'), ('fastq', 'lf')) + ((('fastq', 'crlf'), ('sam', 'lf'), ('vcf2', 'lf'), ('bam', 'lf')) if not quick else ()):
+    for fmt, eol in (('bed6', 'lf'), ('fastq', 'lf'), ('bam', 'lf')) + ((('fastq', 'crlf'), ('sam', 'lf'), ('vcf2', 'lf'), ('fasta', 'lf')) if not quick else ()):
         f = _gen_file(fmt, rng, 3, eol, samples=2)
         for m1 in _menu_for(3):
             s1 = _resolve(m1, 3)
@@ -292,7 +297,7 @@ def generate(tier, seed):
             for m2 in _menu_for(len(s1)):
                 s2 = _resolve(m2, len(s1))
                 inner = ['idx', m1, s1, ['src']]
-                if (len(cases) % 3) == 0:
+                if (len(cases) % 2) == 0:
                     inner = ['touch', inner]
                 cases.append(_mk(f, ['idx', m2, s2, inner]))
     # (2) random files x random programs
@@ -519,8 +524,8 @@ def finding(case, o):
         return None
     if fmt in ('bed', 'bed6', 'np', 'vcf', 'vcf2') and crlf:
         # every record stops before its '\n': re-insert it after each bare '\r'
-        fixed = body.replace('\r\n', '\n').replace('\r', '\r\n')
-        if '\r\n' not in body and _spec_ok_py(case, fixed):
+        fixed = body.replace('\r\n', '\r').replace('\r', '\r\n')
+        if fixed != body and _spec_ok_py(case, fixed):
             return 'C04-crlf-delimited-selection-drops-newline'
     if fmt in ('bed', 'vcf') and _has(case['prog'], ('repl',)) and any(len(r['cols']) > NF[fmt] for r in case['recs']):
         recs = [dict(cols=r['cols'][:NF[fmt]], eol=r['eol']) for r in case['recs']]
